@@ -162,13 +162,15 @@ mutual
       | _, _ => none
 end
 
+/- the reading recursion is bounded by the length of the text the tree spans: every level of nesting spans at
+   least one more character (`need_le`, Proofs/Peg/Read.lean) -/
 def leafTexts (rule : String) (ts : List PTree) : List Str := (ts.filter (fun t => t.rule == rule)).map (·.text)
 
 def toSentence (t : PTree) : Option LSentence :=
   match t.rule, t.kids with
   | "sentence", term :: punct :: rest =>
     if punct.rule != "punctuation" then none else
-    match toTerm 100000 term with
+    match toTerm (2 * term.text.length + 4) term with
     | none => none
     | some tm =>
       let stamp := match rest.find? (fun k => k.rule == "stamp") with
@@ -192,7 +194,7 @@ def toNarsese (t : PTree) : Option LNarsese :=
         | _ => []
       (toSentence s).map (fun s' => .task { budget := entries, sentence := s' })
     | "sentence", _ => (toSentence k).map .sentence
-    | "term", _ => (toTerm 100000 k).map .term
+    | "term", _ => (toTerm (2 * k.text.length + 4) k).map .term
     | _, _ => none
   | _, _ => none
 
